@@ -10,7 +10,7 @@ EXTENDS MCProxy, IOUtils
 
 Rec == ndJsonDeserialize(IOEnv.TRACE)
 Hdr == Rec[1]                      \* {"ev":"lists","seq":[1-based indices into SwapListSeq], "slots":K}
-SwapListSeq == <<V1, V2, V3, Isyn, Ityp, Itgt>>
+SwapListSeq == <<V1, V2, V3, Isyn, Ityp, Itgt, V7, V8>>
 TraceLists == [i \in 1..Len(Hdr.seq) |-> SwapListSeq[Hdr.seq[i]]]
 TraceConns == 1..Hdr.slots
 
